@@ -1965,6 +1965,28 @@ def internal_oracle(ck, env: Env, info, stats, extra):
     return reqs, req_meta
 
 
+def inventory(ck, *files):
+    """tie G: regenerate `Generated/AdaptAttrInventory.lean` (override table of `_attributes.py`, exits of
+    `dtype_to_tensor_type` / `_adapt.py`); report which normalised-AST hashes differ from the committed
+    baseline (evidence + escalation only - the obligations are about the structural tables)."""
+    import json
+
+    try:
+        from translator import adapt_attr_inventory
+
+        info = adapt_attr_inventory.generate()
+        for p in info["problems"]:
+            ck.broken("extraction", "translator/adapt_attr_inventory.py", p)
+        base = json.loads((core.VERIF / "harness" / "c11c18_source_baseline.json").read_text())
+        mine = {k: v for k, v in info["hashes"].items() if k.split(":")[0] in files}
+        changed = sorted(k for k in set(mine) | {b for b in base if b.split(":")[0] in files} if mine.get(k) != base.get(k))
+        ck.cov["source_inventory"] = {"functions": len(mine), "changed_vs_baseline": changed}
+        return changed
+    except Exception as e:  # noqa: BLE001
+        ck.broken("extraction", "translator/adapt_attr_inventory.py could not read the source", f"{type(e).__name__}: {e}")
+        return ["<unreadable>"]
+
+
 def run(ck: core.Check):
     from translator import constructors
 
@@ -1979,11 +2001,14 @@ def run(ck: core.Check):
         ck.cov["pairs"] = len(info["pairs"])
         ck.cov["pairs_per_module"] = {m: v["n_pairs"] for m, v in info["modules"].items()}
         ck.cov["listed_deviations"] = [f"{p['module']}:{p['op']}:{','.join(p['except'])}" for p in info["pairs"] if p["except"]]
+    source_changed = inventory(ck, "_attributes.py", "_utils.py")
     res = ck.lean(["SpoxModel.Props.C11"], audit="SpoxModel.Audit.C11")
     if ck.thorough:
         from translator.constructors import MODULES
 
-        ck.leanchecker(["SpoxModel.Props.C11"] + [f"SpoxModel.Generated.Conforms_{m[0]}" for m in MODULES])
+        ck.leanchecker(["SpoxModel.Props.C11", "SpoxModel.Model.Conform", "SpoxModel.Lemmas.Conform",
+                        "SpoxModel.Generated.AdaptAttrInventory"]
+                       + [f"SpoxModel.Generated.Conforms_{m[0]}" for m in MODULES])
     bad_pairs = failing_pairs(res)
     for p in (info or {}).get("pairs", []):
         ck.obligations.append({"name": f"Generated.Conforms.{p['module']}.{p['theorem']}",
@@ -2071,6 +2096,7 @@ def replay(ck: core.Check, doc) -> bool:
         from translator import constructors
 
         constructors.generate()
+        inventory(ck, "_attributes.py", "_utils.py")
         res = ck.lean(["SpoxModel.Props.C11"], audit="SpoxModel.Audit.C11")
         for b in ck.broken_items:
             print("still broken:", b["name"], b["detail"][:200])
